@@ -1,34 +1,663 @@
 //go:build verif
 
+// C07 harness: differential check "a standard jq program behaves in fq as in the gojq engine fq embeds".
+//
+// Programs are generated from a grammar of standard jq (gen.go) against generated JSON inputs
+// (inputs.go). Every (program, input) pair is evaluated
+//
+//	(a) by the gojq library directly (gojq.Parse -> Compile -> Run, same module version, default builtins,
+//	    `$in` bound to the input, null as `.`), and
+//	(b) by fq in-process, as `fq -n --argjson in V 'P'` does: `$in` comes from the interpreter's slurps,
+//	    the program is the query of interp.Eval with null input.
+//
+// Modes (first word of the op text):
+//
+//	d  direct: P is the whole query of one interp.Eval; observation = outputs until the first error.
+//	b  batch: 16 programs of one input share one Eval, each as `try ((P) | ["o", .]) catch ["e"]`
+//	   separated by ["s"]; the SAME batch text is given to the reference; a batch that fails as a
+//	   whole (compile error, timeout) is re-run program by program in mode d.
+//	c  CLI: `fq -nc --argjson in V P` through interp.Main (argument parsing, query rewrite, display with
+//	   the colorjson encoder); compared as text with gojq.Marshal of the reference outputs, and the exit
+//	   code with the reference's end (0 / 5 error / 3 does not compile).
+//
+// Verdicts are decided here (there is no Lean oracle for a jq engine): `!OK`, `!PROPFAIL`.
+// op text: `<mode> <input JSON> ::: <program>`; OK lines abbreviate the input as `in#<idx>`, PROPFAIL lines
+// carry it in full (followed by ` ;;ref: <obs> ;;fq: <obs>`) so that they replay alone.
+//
+// `-facts` emits the override table computed with the gojq PARSER from the .jq sources in their real
+// load order as case lines for Drv/C07.lean (cross-check of the text scanner behind Gen/Overrides.lean).
 package main
 
 import (
+	"context"
+	"flag"
 	"fmt"
+	"hash/fnv"
 	"os"
+	"sort"
+	"strconv"
+	"strings"
+	"sync"
 	"time"
+
+	"github.com/wader/fq/internal/verifharness/hlib"
+	"github.com/wader/fq/pkg/interp"
+	"github.com/wader/gojq"
 )
 
-func main() {
-	if len(os.Args) > 1 && os.Args[1] == "-probe" {
-		f := newFq()
-		in, _ := parseJSONExact(`{"a":[1,2,{"b":"x"}],"n":123456789012345678901234567890}`)
-		t := time.Now()
-		fmt.Println(f.setIn(in))
-		fmt.Println("setIn", time.Since(t))
-		progs := []string{`$in.a[] | tojson`, `$in | .n + 1`, `"abc" | test("B";"i"), [splits("b")], (fromjson? // "x")`, `$in | tojson | fromjson | .n`, `error("x")`, `1,2,error`, `foo`, `(`}
-		for _, p := range progs {
-			t = time.Now()
-			a := runRef(p, in)
-			t1 := time.Since(t)
-			t = time.Now()
-			b := f.evalDirect(p)
-			t2 := time.Since(t)
-			t = time.Now()
-			l, ex, se, pm := runCLI(p, jsonText(in))
-			t3 := time.Since(t)
-			rl, re := refCLI(p, in)
-			fmt.Printf("%s\n  ref %v %s\n  fq  %v %s\n  cli %v %v exit=%d stderr=%q %s\n  refcli %s\n", p, t1, a, t2, b, t3, l, ex, se, pm, fmtLines(rl, re))
+const sepInProg = " ::: "
+const sepObs = " ;;ref: "
+
+type progInfo struct {
+	text   string
+	feats  map[string]bool
+	target int
+	inputs []int // indices of the inputs it runs on (target first)
+}
+
+type caseRes struct {
+	mode    string
+	prog    int
+	input   int
+	ok      bool
+	ref, fq string // observations (strings) — kept for failures and for the non-constant statistic
+	refEnd  string
+	known   string // key of a recorded finding that explains the disagreement
+}
+
+func fnv64(s string) uint64 {
+	h := fnv.New64a()
+	h.Write([]byte(s))
+	return h.Sum64()
+}
+
+// ---------------------------------------------------------------- batch mode
+
+const batchSize = 16
+
+func batchText(progs []string) string {
+	var sb strings.Builder
+	for i, p := range progs {
+		if i > 0 {
+			sb.WriteString(`, ["s"], `)
 		}
+		sb.WriteString(`(try (limit(` + strconv.Itoa(maxOutputs+1) + `; (` + p + `)) | ["o", .]) catch ["e"])`)
+	}
+	return sb.String()
+}
+
+// splitBatch cuts the outputs of a batch program into per-program observations.
+func splitBatch(it gojq.Iter, ctx context.Context, n int) ([]Obs, bool) {
+	res := make([]Obs, 1, n)
+	for {
+		v, ok := it.Next()
+		if !ok {
+			break
+		}
+		if _, isErr := v.(error); isErr {
+			return nil, false
+		}
+		if ctx.Err() != nil {
+			return nil, false
+		}
+		if jv, isJQ := v.(gojq.JQValue); isJQ {
+			v = jv.JQValueToGoJQ()
+		}
+		a, isArr := v.([]any)
+		if !isArr || len(a) == 0 {
+			return nil, false
+		}
+		tag, _ := a[0].(string)
+		cur := &res[len(res)-1]
+		switch tag {
+		case "o":
+			if len(a) != 2 {
+				return nil, false
+			}
+			if len(cur.Outs) >= maxOutputs {
+				cur.End = "more"
+			} else {
+				cur.Outs = append(cur.Outs, canon(a[1]))
+			}
+		case "e":
+			cur.End = "error"
+		case "s":
+			res = append(res, Obs{})
+		default:
+			return nil, false
+		}
+	}
+	if len(res) != n {
+		return nil, false
+	}
+	return res, true
+}
+
+func refBatch(text string, in any, n int) (res []Obs, ok bool) {
+	_, panicked := hlib.Catch(func() string {
+		q, err := gojq.Parse(text)
+		if err != nil {
+			return ""
+		}
+		code, err := gojq.Compile(q, refOpts...)
+		if err != nil {
+			return ""
+		}
+		ctx, cancel := context.WithTimeout(context.Background(), 4*evalTimeout)
+		defer cancel()
+		res, ok = splitBatch(code.RunWithContext(ctx, nil, in), ctx, n)
+		return ""
+	})
+	if panicked {
+		return nil, false
+	}
+	return res, ok
+}
+
+func (f *fqInst) fqBatch(text string, n int) (res []Obs, ok bool) {
+	_, panicked := hlib.Catch(func() string {
+		ctx, cancel := context.WithTimeout(context.Background(), 4*evalTimeout)
+		defer cancel()
+		it, err := f.i.Eval(ctx, nil, text, interp.EvalOpts{})
+		if err != nil {
+			return ""
+		}
+		res, ok = splitBatch(it, ctx, n)
+		return ""
+	})
+	if panicked {
+		return nil, false
+	}
+	return res, ok
+}
+
+// ---------------------------------------------------------------- one (mode, program, input) comparison
+
+func compareDirect(f *fqInst, prog string, in any) (ok bool, ref, fq Obs) {
+	ref = runRef(prog, in)
+	fq = f.evalDirect(prog)
+	if ref.End == "timeout" || fq.End == "timeout" {
+		// a timeout is a resource limit of the harness (loaded machine), not an observation: both sides
+		// again with a long limit; still both timing out = equal (counted apart), one side only = a hang
+		ref = runRefT(prog, in, longTimeout)
+		fq = f.evalDirectT(prog, longTimeout)
+	}
+	return ref.Equal(fq), ref, fq
+}
+
+func compareCLI(prog string, in any, inJSON string) (ok bool, ref, fq string) {
+	rl, rend := refCLI(prog, in)
+	lines, exit, _, pm := runCLI(prog, inJSON)
+	ref = fmtLines(rl, rend)
+	wantExit := 0
+	switch rend {
+	case "error":
+		wantExit = 5
+	case "parse", "compile":
+		wantExit = 3
+	}
+	fq = fmtLines(lines, "exit="+strconv.Itoa(exit)) + pm
+	ref = fmtLines(rl, "exit="+strconv.Itoa(wantExit))
+	if rend == "more" || rend == "timeout" {
+		return true, ref, fq // not comparable (never generated: see selection of CLI cases)
+	}
+	return ref == fq, ref, fq
+}
+
+// ---------------------------------------------------------------- main
+
+type sizes struct {
+	inputs, progs, extra, cli, workers int
+	batchShare                           int // percent of (program,input) pairs evaluated in batch mode
+}
+
+func main() {
+	facts := false
+	for i, a := range os.Args {
+		if a == "-facts" {
+			facts = true
+			os.Args = append(os.Args[:i], os.Args[i+1:]...)
+			break
+		}
+	}
+	if len(os.Args) > 1 && os.Args[1] == "-probe" {
+		probe()
 		return
+	}
+	cfg := hlib.ParseFlags()
+	_ = flag.CommandLine
+	o := hlib.NewOut(cfg.Out)
+	defer o.Close()
+	if facts {
+		emitFacts(o)
+		return
+	}
+	if cfg.Replay != "" {
+		replay(o, cfg.Replay)
+		return
+	}
+	sz := sizes{inputs: 24, progs: 2400, extra: 2, cli: 120, workers: 4, batchShare: 60}
+	if cfg.Thorough() {
+		sz = sizes{inputs: 64, progs: 16000, extra: 2, cli: 600, workers: 4, batchShare: 60}
+	}
+	if s := os.Getenv("VERIF_C07_PROGS"); s != "" {
+		sz.progs, _ = strconv.Atoi(s)
+	}
+	if s := os.Getenv("VERIF_C07_WORKERS"); s != "" {
+		sz.workers, _ = strconv.Atoi(s)
+	}
+	generate(o, cfg, sz)
+}
+
+func generate(o *hlib.Out, cfg hlib.Config, sz sizes) {
+	t0 := time.Now()
+	r := hlib.NewRand(cfg.Seed)
+	inputs := make([]any, sz.inputs)
+	inJSON := make([]string, sz.inputs)
+	for i := range inputs {
+		inputs[i] = genInput(r.Fork())
+		inJSON[i] = jsonText(inputs[i])
+	}
+	// programs
+	var progs []progInfo
+	nonCompiling, dropped := 0, 0
+	seen := map[string]bool{}
+	for len(progs) < sz.progs {
+		pr := r.Fork()
+		target := len(progs) % sz.inputs
+		text, feats := genProgram(pr, inputs[target])
+		if len(text) > 900 || seen[text] || strings.ContainsAny(text, "\t\n\r") && false {
+			dropped++
+			continue
+		}
+		seen[text] = true
+		if q, err := gojq.Parse(text); err != nil {
+			nonCompiling++
+			if nonCompiling%25 != 0 {
+				continue
+			}
+			feats = map[string]bool{"noncompiling": true}
+		} else if _, err := gojq.Compile(q, refOpts...); err != nil {
+			nonCompiling++
+			if nonCompiling <= 5 {
+				o.Sample("does not compile in the reference: " + text + " :: " + err.Error())
+			}
+			if os.Getenv("VERIF_C07_DEBUG") != "" {
+				fmt.Fprintln(os.Stderr, "noncompiling:", err.Error())
+			}
+			if nonCompiling%25 != 0 {
+				continue
+			}
+			feats = map[string]bool{"noncompiling": true}
+		}
+		p := progInfo{text: text, feats: feats, target: target, inputs: []int{target}}
+		for len(p.inputs) < 1+sz.extra && len(p.inputs) < sz.inputs {
+			j := pr.Intn(sz.inputs)
+			dup := false
+			for _, k := range p.inputs {
+				dup = dup || k == j
+			}
+			if !dup {
+				p.inputs = append(p.inputs, j)
+			}
+		}
+		progs = append(progs, p)
+	}
+	tGen := time.Since(t0)
+
+	// work lists per input
+	type item struct {
+		prog int
+		mode string
+	}
+	work := make([][]item, sz.inputs)
+	for pi, p := range progs {
+		for k, ii := range p.inputs {
+			mode := "d"
+			if p.feats["noncompiling"] {
+				mode = "d"
+			} else if int(fnv64(p.text+strconv.Itoa(k))%100) < sz.batchShare {
+				mode = "b"
+			}
+			work[ii] = append(work[ii], item{pi, mode})
+		}
+	}
+	results := make([][]caseRes, sz.inputs)
+	var wg sync.WaitGroup
+	jobs := make(chan int, sz.inputs)
+	for i := 0; i < sz.inputs; i++ {
+		jobs <- i
+	}
+	close(jobs)
+	var fallbackBatches, batches int64
+	var mu sync.Mutex
+	for w := 0; w < sz.workers; w++ {
+		wg.Add(1)
+		go func() {
+			defer wg.Done()
+			f := newFq()
+			for ii := range jobs {
+				in := inputs[ii]
+				if err := f.setIn(in); err != nil {
+					panic(fmt.Sprintf("cannot set $in: %v", err))
+				}
+				var res []caseRes
+				var batch []item
+				flush := func() {
+					if len(batch) == 0 {
+						return
+					}
+					texts := make([]string, len(batch))
+					for i, it := range batch {
+						texts[i] = progs[it.prog].text
+					}
+					bt := batchText(texts)
+					ro, rok := refBatch(bt, in, len(batch))
+					var fo []Obs
+					fok := false
+					if rok {
+						fo, fok = f.fqBatch(bt, len(batch))
+					}
+					mu.Lock()
+					batches++
+					if !rok || !fok {
+						fallbackBatches++
+					}
+					mu.Unlock()
+					for i, it := range batch {
+						if rok && fok {
+							cr := caseRes{mode: "b", prog: it.prog, input: ii, ok: ro[i].Equal(fo[i]), ref: ro[i].String(), fq: fo[i].String(), refEnd: ro[i].End}
+							if !cr.ok {
+								// attribute: the same program alone (mode d) with the repair preludes
+								if ok, a, _ := compareDirect(f, texts[i], in); !ok {
+									cr.known = classifyDirect(f, texts[i], a)
+								}
+							}
+							res = append(res, cr)
+						} else {
+							ok, a, b := compareDirect(f, texts[i], in)
+							cr := caseRes{mode: "d", prog: it.prog, input: ii, ok: ok, ref: a.String(), fq: b.String(), refEnd: a.End}
+							if !ok {
+								cr.known = classifyDirect(f, texts[i], a)
+							}
+							res = append(res, cr)
+						}
+					}
+					batch = batch[:0]
+				}
+				for _, it := range work[ii] {
+					if it.mode == "b" {
+						batch = append(batch, it)
+						if len(batch) == batchSize {
+							flush()
+						}
+						continue
+					}
+					ok, a, b := compareDirect(f, progs[it.prog].text, in)
+					cr := caseRes{mode: "d", prog: it.prog, input: ii, ok: ok, ref: a.String(), fq: b.String(), refEnd: a.End}
+					if !ok {
+						cr.known = classifyDirect(f, progs[it.prog].text, a)
+					}
+					res = append(res, cr)
+				}
+				flush()
+				results[ii] = res
+			}
+		}()
+	}
+	wg.Wait()
+	tRun := time.Since(t0) - tGen
+
+	// per program: observations over its inputs
+	perProg := make([][]caseRes, len(progs))
+	for _, rs := range results {
+		for _, c := range rs {
+			perProg[c.prog] = append(perProg[c.prog], c)
+		}
+	}
+	// CLI cases: programs whose reference run ended normally or with an error (not cut, no timeout)
+	var cliCases []caseRes
+	{
+		cr := r.Fork()
+		var cand []int
+		for pi, cs := range perProg {
+			good := len(cs) > 0
+			for _, c := range cs {
+				if c.refEnd == "more" || c.refEnd == "timeout" || strings.HasPrefix(c.refEnd, "panic") {
+					good = false
+				}
+			}
+			if good {
+				cand = append(cand, pi)
+			}
+		}
+		n := sz.cli
+		if n > len(cand) {
+			n = len(cand)
+		}
+		type cj struct{ prog, input int }
+		var cjs []cj
+		for k := 0; k < n; k++ {
+			pi := cand[cr.Intn(len(cand))]
+			cjs = append(cjs, cj{pi, progs[pi].inputs[cr.Intn(len(progs[pi].inputs))]})
+		}
+		out := make([]caseRes, len(cjs))
+		var wg2 sync.WaitGroup
+		ch := make(chan int, len(cjs))
+		for i := range cjs {
+			ch <- i
+		}
+		close(ch)
+		for w := 0; w < sz.workers; w++ {
+			wg2.Add(1)
+			go func() {
+				defer wg2.Done()
+				for i := range ch {
+					j := cjs[i]
+					ok, a, b := compareCLI(progs[j.prog].text, inputs[j.input], inJSON[j.input])
+					out[i] = caseRes{mode: "c", prog: j.prog, input: j.input, ok: ok, ref: a, fq: b}
+					if !ok {
+						out[i].known = classifyCLI(progs[j.prog].text, inJSON[j.input], a)
+					}
+				}
+			}()
+		}
+		wg2.Wait()
+		cliCases = out
+	}
+	tCLI := time.Since(t0) - tGen - tRun
+
+	// ---- output
+	emit := func(c caseRes) {
+		p := progs[c.prog]
+		if c.ok {
+			o.N++
+			o.Verdict("OK", c.mode+" in#"+strconv.Itoa(c.input)+sepInProg+p.text)
+		} else if c.known != "" {
+			o.N++
+			o.Verdict("KNOWN", c.known+" "+c.mode+" "+inJSON[c.input]+sepInProg+p.text+sepObs+clip(c.ref)+" ;;fq: "+clip(c.fq))
+			o.Stat("known_"+strings.ReplaceAll(c.known, "-", "_"), 1)
+		} else {
+			o.N++
+			o.Verdict("PROPFAIL", c.mode+" "+inJSON[c.input]+sepInProg+p.text+sepObs+clip(c.ref)+" ;;fq: "+clip(c.fq))
+		}
+		o.Stat("mode_"+c.mode, 1)
+	}
+	nonConst, withOutput, errEnding, allErr := 0, 0, 0, 0
+	featProgs := map[string]int{}
+	for pi, cs := range perProg {
+		sort.SliceStable(cs, func(a, b int) bool { return cs[a].input < cs[b].input })
+		distinct := map[string]bool{}
+		hasOut, hasErr, onlyErr := false, false, true
+		for _, c := range cs {
+			emit(c)
+			distinct[c.ref] = true
+			if strings.HasPrefix(c.ref, "ok ") {
+				hasOut = true
+			}
+			if c.refEnd == "error" {
+				hasErr = true
+			}
+			if c.refEnd != "error" || strings.HasPrefix(c.ref, "ok ") {
+				onlyErr = false
+			}
+		}
+		if len(distinct) > 1 {
+			nonConst++
+		}
+		if hasOut {
+			withOutput++
+		}
+		if hasErr {
+			errEnding++
+		}
+		if onlyErr {
+			allErr++
+		}
+		for f := range progs[pi].feats {
+			featProgs[f]++
+		}
+		// non-trivial: depends on the input and produces at least one value on some input
+		if len(distinct) > 1 && hasOut {
+			o.Class(progs[pi].text)
+		}
+	}
+	for _, c := range cliCases {
+		emit(c)
+	}
+	o.Stat("programs", len(progs))
+	o.Stat("programs_nonconstant", nonConst)
+	o.Stat("programs_with_output", withOutput)
+	o.Stat("programs_with_error_on_some_input", errEnding)
+	o.Stat("programs_only_errors", allErr)
+	o.Stat("generated_not_compiling_in_reference", nonCompiling)
+	o.Stat("generated_dropped_long_or_duplicate", dropped)
+	o.Stat("inputs", len(inputs))
+	o.Stat("batches", int(batches))
+	o.Stat("batches_rerun_one_by_one", int(fallbackBatches))
+	o.Stat("ms_generate", int(tGen.Milliseconds()))
+	o.Stat("ms_run", int(tRun.Milliseconds()))
+	o.Stat("ms_cli", int(tCLI.Milliseconds()))
+	var fs []string
+	for f := range featProgs {
+		fs = append(fs, f)
+	}
+	sort.Strings(fs)
+	for _, f := range fs {
+		o.Stat("feat_"+strings.NewReplacer(":", "_", "/", "_", "-", "_").Replace(f), featProgs[f])
+	}
+	if len(progs) > 0 {
+		o.Stat("nonconstant_permille", nonConst*1000/len(progs))
+	}
+	for i := 0; i < 6 && i < len(progs); i++ {
+		cs := perProg[i*7%len(progs)]
+		if len(cs) > 0 {
+			o.Sample(progs[cs[0].prog].text + "  =>  " + clip(cs[0].ref))
+		}
+	}
+}
+
+func clip(s string) string {
+	if len(s) > 700 {
+		return s[:700] + "…"
+	}
+	return s
+}
+
+// ---------------------------------------------------------------- replay / corpus
+
+func parseOp(l string) (mode, inJSON, prog string, err error) {
+	// strip a verdict word written by a previous run
+	for _, v := range []string{"PROPFAIL ", "OK ", "KNOWN ", "DIVERGE ", "BADOP "} {
+		l = strings.TrimPrefix(l, v)
+	}
+	for _, k := range knownKeys {
+		l = strings.TrimPrefix(l, k+" ")
+	}
+	if j := strings.Index(l, sepObs); j >= 0 {
+		l = l[:j]
+	}
+	i := strings.Index(l, sepInProg)
+	if i < 0 || len(l) < 3 || l[1] != ' ' {
+		return "", "", "", fmt.Errorf("want `<mode> <input json> ::: <program>`")
+	}
+	mode, inJSON, prog = l[:1], l[2:i], l[i+len(sepInProg):]
+	unesc := strings.NewReplacer(`\t`, "\t", `\n`, "\n", `\r`, "\r")
+	// hlib.San escaped TAB/NL of the program text (they occur inside jq strings only as \t, \n escapes
+	// of the JSON encoder, i.e. already as two characters) — nothing to undo for generated programs.
+	_ = unesc
+	return mode, inJSON, prog, nil
+}
+
+func replay(o *hlib.Out, path string) {
+	f := newFq()
+	for _, l := range hlib.ReplayLines(path) {
+		mode, inJSON, prog, err := parseOp(l)
+		if err != nil {
+			o.Verdict("BADOP", l+" :: "+err.Error())
+			continue
+		}
+		in, err := parseJSONExact(inJSON)
+		if err != nil {
+			o.Verdict("BADOP", l+" :: input: "+err.Error())
+			continue
+		}
+		if err := f.setIn(in); err != nil {
+			o.Verdict("BADOP", l+" :: cannot set $in: "+err.Error())
+			continue
+		}
+		var ok bool
+		var a, b string
+		switch mode {
+		case "c":
+			ok, a, b = compareCLI(prog, in, inJSON)
+		case "d", "b":
+			var x, y Obs
+			ok, x, y = compareDirect(f, prog, in)
+			a, b = x.String(), y.String()
+			if ok && mode == "b" {
+				bt := batchText([]string{prog})
+				ro, rok := refBatch(bt, in, 1)
+				fo, fok := f.fqBatch(bt, 1)
+				if rok != fok || (rok && !ro[0].Equal(fo[0])) {
+					ok = false
+					a, b = fmt.Sprint(rok, ro), fmt.Sprint(fok, fo)
+				}
+			}
+		default:
+			o.Verdict("BADOP", l+" :: unknown mode")
+			continue
+		}
+		o.N++
+		known := ""
+		if !ok {
+			if mode == "c" {
+				known = classifyCLI(prog, inJSON, a)
+			} else {
+				known = classifyDirect(f, prog, runRef(prog, in))
+			}
+		}
+		switch {
+		case ok:
+			o.Verdict("OK", mode+" "+inJSON+sepInProg+prog)
+		case known != "":
+			o.Verdict("KNOWN", known+" "+mode+" "+inJSON+sepInProg+prog+sepObs+clip(a)+" ;;fq: "+clip(b))
+		default:
+			o.Verdict("PROPFAIL", mode+" "+inJSON+sepInProg+prog+sepObs+clip(a)+" ;;fq: "+clip(b))
+		}
+	}
+}
+
+func probe() {
+	f := newFq()
+	in, _ := parseJSONExact(os.Args[2])
+	if err := f.setIn(in); err != nil {
+		fmt.Println(err)
+	}
+	for _, p := range os.Args[3:] {
+		ok, a, b := compareDirect(f, p, in)
+		fmt.Printf("%s\n  equal=%v\n  ref %s\n  fq  %s\n", p, ok, a, b)
+		ok2, c, d := compareCLI(p, in, jsonText(in))
+		fmt.Printf("  cli equal=%v\n  ref %s\n  fq  %s\n", ok2, c, d)
 	}
 }
